@@ -12,10 +12,14 @@ def build():
     run.build_harness("conc")
 
 
-def run_scenarios(lines, seed, iters, strategy="mixed", jobs=16, timeout=3000):
+def run_scenarios(lines, seed, iters, strategy="mixed", jobs=16, timeout=None):
     """returns list of output lines (all scenarios)"""
     if not lines:
         return []
+    if timeout is None:
+        # shuttle sees a deadlock on the instrumented primitives at once; a block on anything else (std::sync::Once, a
+        # channel) would stall the OS thread: bounded, and reported as `out=timeout`
+        timeout = 3000 if iters > 1500 else 400
     jobs = max(1, min(jobs, len(lines)))
     chunks = [lines[i::jobs] for i in range(jobs)]
     def work(chunk):
